@@ -106,14 +106,20 @@ def normalise(case):
     return out
 
 
-def wild_odd_start_pieces(secs):
+def gc_effective(case):
+    return case["gc"] and case["kind"] != "shared"
+
+
+def wild_odd_start_pieces(secs, gc=False):
     """Model of wild's layout parity: within an output section the 1-aligned input sections are laid
     out last, one after another, starting at an even address (every higher-aligned group is padded
-    to its alignment).  Returns [(sec index, piece index)] of pieces that start at an odd address."""
+    to its alignment; with --gc-sections, pieces without a referenced label vanish).  Returns [(sec index, piece index)] of pieces that start at an odd address."""
     odd = []
     for si, s in enumerate(secs):
         acc = 0
         for pi, p in enumerate(s["pieces"]):
+            if gc and not piece_sites(p):
+                continue  # unreferenced (only labelled pointers are referenced from _start): collected
             if p["align"] == 1:
                 if acc & 1:
                     odd.append((si, pi))
@@ -330,7 +336,7 @@ class C09(Check):
         if not case["pack"]:
             return None
         secs = normalise(case)
-        for si, pi in wild_odd_start_pieces(secs):
+        for si, pi in wild_odd_start_pieces(secs, gc_effective(case)):
             if self._relative_sites(case, secs[si]["pieces"][pi]):
                 return "relr-odd-section-start"
         return None
@@ -618,7 +624,7 @@ class C09(Check):
                 raise
         w = res["wild"]
         # parity model check (harness self-check; keeps excluded_by_construction exact)
-        model_odd = set(wild_odd_start_pieces(secs))
+        model_odd = set(wild_odd_start_pieces(secs, gc_effective(case)))
         for plabel, si, pi, align in pieces_meta:
             actual = w["symaddr"].get(plabel)
             if actual is None:
@@ -672,7 +678,7 @@ class C09(Check):
         if r.rc < 0 or "panicked at" in err:
             sig = "wild-crash"
         elif "Insufficient .relr.dyn allocation" in err or "Insufficient .rela.dyn (relative) allocation" in err:
-            odd = [(si, pi) for si, pi in wild_odd_start_pieces(secs) if self._relative_sites(case, secs[si]["pieces"][pi])]
+            odd = [(si, pi) for si, pi in wild_odd_start_pieces(secs, gc_effective(case)) if self._relative_sites(case, secs[si]["pieces"][pi])]
             sig = "relr-odd-section-start" if (case["pack"] and odd) else "dynrel-allocation-mismatch"
         else:
             sig = "wild-rejects-valid-link"
